@@ -19,16 +19,20 @@ import (
 	"fmt"
 	"net/http"
 	"net/http/httptest"
+	"os"
 	"sort"
 	"strconv"
 	"strings"
 	"unicode"
 	"unicode/utf8"
 
+	"google.golang.org/genproto/googleapis/api/annotations"
+	"google.golang.org/genproto/googleapis/api/serviceconfig"
 	"google.golang.org/grpc"
 	"google.golang.org/protobuf/proto"
 	"google.golang.org/protobuf/reflect/protoreflect"
 	"google.golang.org/protobuf/types/descriptorpb"
+	"larking.io/larking"
 )
 
 type c01Binding struct {
@@ -37,7 +41,8 @@ type c01Binding struct {
 }
 type c01Method struct {
 	Svc, Name string
-	Bindings  []c01Binding
+	Bindings  []c01Binding // the annotation: main binding, then its additional bindings
+	Config    []c01Binding // one service-config rule selecting this method: main, then additional bindings
 }
 
 func (m c01Method) full() string { return "/verif.rt." + m.Svc + "/" + m.Name }
@@ -56,7 +61,15 @@ func c01EncRuleset(ms []c01Method) string {
 		if len(bs) == 0 {
 			bs = []string{"_"}
 		}
-		parts = append(parts, m.Svc+"."+m.Name+"="+strings.Join(bs, "+"))
+		entry := m.Svc + "." + m.Name + "=" + strings.Join(bs, "+")
+		if len(m.Config) > 0 {
+			var cs []string
+			for _, b := range m.Config {
+				cs = append(cs, b.Verb+"~"+hx([]byte(b.Tmpl))+"~"+c01dash(b.Body)+"~"+c01dash(b.Resp))
+			}
+			entry += "@" + strings.Join(cs, "+")
+		}
+		parts = append(parts, entry)
 	}
 	if len(parts) == 0 {
 		return "-"
@@ -84,6 +97,13 @@ func c01DecRuleset(s string) []c01Method {
 		name, bs, _ := strings.Cut(p, "=")
 		svc, mn, _ := strings.Cut(name, ".")
 		m := c01Method{Svc: svc, Name: mn}
+		bs, cfg, hasCfg := strings.Cut(bs, "@")
+		if hasCfg {
+			for _, b := range strings.Split(cfg, "+") {
+				f := strings.Split(b, "~")
+				m.Config = append(m.Config, c01Binding{Verb: f[0], Tmpl: string(unhx(f[1])), Body: c01undash(f[2]), Resp: c01undash(f[3])})
+			}
+		}
 		if bs != "_" {
 			for _, b := range strings.Split(bs, "+") {
 				f := strings.Split(b, "~")
@@ -131,6 +151,9 @@ func c01ClsOf(ms []c01Method, extra ...string) string {
 	ts := append([]string{}, extra...)
 	for _, m := range ms {
 		for _, b := range m.Bindings {
+			ts = append(ts, b.Tmpl)
+		}
+		for _, b := range m.Config {
 			ts = append(ts, b.Tmpl)
 		}
 	}
@@ -230,7 +253,16 @@ func c01Build(base bool, ms []c01Method) *c01Mux {
 	}
 	var order []string
 	by := map[string][]dynMethod{}
+	var cfgRules []*annotations.HttpRule
 	for _, m := range all {
+		if len(m.Config) > 0 {
+			cr := c01Rule(m.Config[0])
+			for _, a := range m.Config[1:] {
+				cr.Additional = append(cr.Additional, c01Rule(a))
+			}
+			cr.Selector = "verif.rt." + m.Svc + "." + m.Name
+			cfgRules = append(cfgRules, cr.toProto())
+		}
 		if _, ok := by[m.Svc]; !ok {
 			order = append(order, m.Svc)
 		}
@@ -258,7 +290,11 @@ func c01Build(base bool, ms []c01Method) *c01Mux {
 	}
 	cm := &c01Mux{rec: rec, reg: "acc"}
 	// dynMux registers service by service; the first failure is the registration outcome
-	mux, err := dynMux([]protoreflect.FileDescriptor{fd}, impl)
+	var mopts []larking.MuxOption
+	if len(cfgRules) > 0 {
+		mopts = append(mopts, larking.ServiceConfigOption(&serviceconfig.Service{Http: &annotations.Http{Rules: cfgRules}}))
+	}
+	mux, err := dynMux([]protoreflect.FileDescriptor{fd}, impl, mopts...)
 	if err != nil {
 		if isPanic(err) {
 			cm.reg = "panic"
@@ -303,6 +339,9 @@ func (cm *c01Mux) req(verb, path string) string {
 	}()
 	if status == -1 {
 		return "panic,-,-"
+	}
+	if os.Getenv("VERIF_DEBUG") != "" {
+		fmt.Fprintf(os.Stderr, "debug: %s %q -> %d %s\n", verb, path, status, w.Body.String())
 	}
 	meth := "-"
 	if cm.rec.method != "" {
@@ -514,6 +553,21 @@ func c01RuleSet(r *rng) []c01Method {
 		}
 		ms = append(ms, m)
 	}
+	// sometimes a service-config rule: one that shares the annotation's main pattern but brings other
+	// additional bindings (both sets must be served), or an unrelated one
+	for i := range ms {
+		if r.intn(5) != 0 {
+			continue
+		}
+		if len(ms[i].Bindings) > 0 && r.bool() {
+			ms[i].Config = []c01Binding{ms[i].Bindings[0], {Verb: r.picks(c01Verbs), Tmpl: c01Tmpl(r)}}
+			if len(ms[i].Bindings) == 1 {
+				ms[i].Bindings = append(ms[i].Bindings, c01Binding{Verb: r.picks(c01Verbs), Tmpl: c01Tmpl(r)})
+			}
+		} else {
+			ms[i].Config = []c01Binding{{Verb: r.picks(c01Verbs), Tmpl: c01Tmpl(r)}}
+		}
+	}
 	// sometimes: families that share prefixes (precedence), or the implicit path of a method
 	switch r.intn(6) {
 	case 0:
@@ -534,6 +588,9 @@ func c01Paths(r *rng, ms []c01Method, n int) []string {
 	var tmpls []string
 	for _, m := range ms {
 		for _, b := range m.Bindings {
+			tmpls = append(tmpls, b.Tmpl)
+		}
+		for _, b := range m.Config {
 			tmpls = append(tmpls, b.Tmpl)
 		}
 		tmpls = append(tmpls, m.full())
